@@ -126,7 +126,10 @@ def _wrap(expand):
 def conformance(ctx, items: list, n: int) -> int:
     """Replay n histories (completions all 'ok') on the real multiprocessing.shared_memory + real threaded Disk and
     compare every answer, the free space reported over the protocol and the dataset statuses with the virtual world."""
-    ok_items = [(cfg, h) for cfg, h in items if all(ev[0] != "done" or ev[2] == "ok" for ev in h) and len(h) >= 3]
+    # only what real threads and real shared memory can be made to do on cue: plain completions, no injected faults, no
+    # armed (eager) completions, no purge inside a job, no trimmed capacity
+    ok_items = [(cfg, h) for cfg, h in items if all(ev[0] != "done" or ev[2] == "ok" for ev in h) and len(h) >= 3
+                and not any(ev[0] in ("arm", "cb") for ev in h) and not cfg.get("trim") and not cfg.get("eager")]
     ok_items.sort(key=lambda x: (-sum(1 for ev in x[1] if ev[0] == "done"), -len(x[1]), repr(x[1])))
     with_jobs = [x for x in ok_items if any(ev[0] == "done" for ev in x[1])]
     rest = [x for x in ok_items if not any(ev[0] == "done" for ev in x[1])]
